@@ -92,7 +92,24 @@ func (c *evalCtx) intTV(t string) TV {
 
 // ---------- name resolution ----------
 
+// lookup resolves a name; captured variables denote their current value.
 func (c *evalCtx) lookup(name string) (TV, bool) {
+	tv, ok := c.lookupRaw(name)
+	if ok && tv.Cell {
+		pt, isP := tv.Typ.Underlying().(*types.Pointer)
+		if isP {
+			l := &lvalue{base: tv.T, root: pt.Elem()}
+			if at, isA := pt.Elem().Underlying().(*types.Array); isA {
+				l.root, l.elems = at.Elem(), true
+			}
+			v, _ := c.e.load(l, c.cur())
+			return TV{T: v, Typ: pt.Elem(), Sort: c.e.st.sortOf(pt.Elem())}, true
+		}
+	}
+	return tv, ok
+}
+
+func (c *evalCtx) lookupRaw(name string) (TV, bool) {
 	e := c.e
 	if tv, ok := c.qvars[name]; ok {
 		return tv, true
@@ -101,6 +118,12 @@ func (c *evalCtx) lookup(name string) (TV, bool) {
 		return tv, true
 	}
 	if c.paramsFirst && c.useParams {
+		if tv, ok := e.params[name]; ok {
+			return tv, true
+		}
+	}
+	if c.inOld && c.stepOf == nil && c.useParams {
+		// old(x) of a parameter outside step clauses: its value at function entry
 		if tv, ok := e.params[name]; ok {
 			return tv, true
 		}
@@ -186,7 +209,7 @@ func (c *evalCtx) lookupLocal(name string) (TV, bool) {
 				if obj == nil || obj.Name() != name {
 					continue
 				}
-				if _, isVar := obj.(*types.Var); !isVar {
+				if vv, isVar := obj.(*types.Var); !isVar || vv.IsField() {
 					continue
 				}
 				if ins.IsAddr {
@@ -921,6 +944,20 @@ func (c *evalCtx) designatorKeys(x Expr) []desigKey {
 		if gv, ok := e.w.CS.Ghosts[x.Name]; ok {
 			s := e.st.ghostSort(gv.Sort)
 			return []desigKey{{key: "G:" + x.Name, sort: s}}
+		}
+		if tv, ok := c.lookupRaw(x.Name); ok && tv.Cell {
+			if pt, isP := tv.Typ.Underlying().(*types.Pointer); isP {
+				if su, isS := pt.Elem().Underlying().(*types.Struct); isS {
+					var out []desigKey
+					for i := 0; i < su.NumFields(); i++ {
+						k, ks := e.fieldKey(pt.Elem(), su.Field(i))
+						out = append(out, desigKey{key: k, sort: ks, index: tv.T, elemSort: arrayElemSort(ks)})
+					}
+					return out
+				}
+				k, ks := e.cellKey(pt.Elem())
+				return []desigKey{{key: k, sort: ks, index: tv.T, elemSort: arrayElemSort(ks), typ: pt.Elem()}}
+			}
 		}
 	case *ECall:
 		switch x.Fn {
